@@ -27,6 +27,7 @@ BUDGET = {"quick": {"examples": 12000, "wall": 150}, "thorough": {"examples": 40
 FLOORS = {"nontrivial": 0.2, "mode:cap": 0.2, "mode:ns": 0.15, "differential-compared": 0.1, "cap-bites": 0.1}
 KNOWN = ("C01-NONLIT", "C01-NONLIT-KLS", "C02-MIXEDKIND", "C02-GONEREF")
 NS_CHOICES = ["http://ex.org/", "http://ex.org/ns/", "http://other.org/v#", RDF, "http://ex.org/n", "http://nowhere.org/",
+              "http://ex.org/p", "http://ex.org/ns/p", "http://ex.org/ns", "http://www.w3.org/1999/02/22-rdf-syntax-ns#ty",
               "http://ex.org/voc#", "http://ex.org/ns/voc#"]
 
 
